@@ -254,21 +254,23 @@ def program_task(args) -> dict:
     def tool(src_, flags, inline=()):
         # one incremental cache per set of global flags (they are part of every module's cache key)
         key = "cache-" + re.sub(r"[^a-z0-9]+", "_", " ".join(flags))[:80]
+        if _ALARM:
+            import signal
+            signal.alarm(240)
         # P and P' must see the same cache state: a module loaded from the incremental cache can yield
         # differently worded messages than the same module parsed afresh (e.g. "def attrib(…)" vs "def (…)" in
         # the overload-variant notes — a matter for C02/C11, not for this property).  So the first time a set of
         # imports meets a cache directory, one discarded run warms the cache.
         imports = frozenset(l.strip() for l in src_.split("\n") if l.strip().startswith(("import ", "from ")))
-        if (key, imports) not in _WARMED:
-            _WARMED.add((key, imports))
-            try:
-                corpus.run_tool(workdir, os.path.join(workdir, key), src_, flags, inline)
-            except BaseException:  # noqa: BLE001 - the judged run below reports it
-                pass
-        if _ALARM:
-            import signal
-            signal.alarm(120)
         try:
+            if (key, imports) not in _WARMED:
+                _WARMED.add((key, imports))
+                try:
+                    corpus.run_tool(workdir, os.path.join(workdir, key), src_, flags, inline)
+                except _RunTimeout:
+                    raise
+                except BaseException:  # noqa: BLE001 - the judged run below reports it
+                    pass
             return _pack(corpus.run_tool(workdir, os.path.join(workdir, key), src_, flags, inline))
         finally:
             if _ALARM:
